@@ -96,6 +96,7 @@ type tlcOut struct {
 		QClass int     `json:"qclass"`
 		Bytes  []int   `json:"bytes"`
 	} `json:"dnsq"`
+	SackFit   [][][]int  `json:"sackfit"` // [n][room] -> bytes the reference encodes for n SACK blocks into room bytes
 	InstSmall []instance `json:"inst_small"`
 	InstBig   []instance `json:"inst_big"`
 }
@@ -575,6 +576,56 @@ func cmdVec(path string) {
 			r.add(mismatch{Kind: "decode", Header: "dnsq", Field: "GetDomainLen", What: "QNAME length", Input: labels, Want: nameLen, Got: dl})
 		}
 		per["dnsq"]++
+	}
+	// SACK blocks into limited option space: the leading blocks that fit, read back by the option parser; never a panic
+	for n, row := range o.SackFit {
+		for room, wantI := range row {
+			r.Cases++
+			want := toBytes(wantI)
+			var blocks []header.SACKBlock
+			for i := 1; i <= n; i++ {
+				blocks = append(blocks, header.SACKBlock{Start: seqnum.Value(uint32(i)<<24 | 0x010203), End: seqnum.Value(uint32(i)<<24 | 0x050600 | uint32(7+i))})
+			}
+			arena := make([]byte, room+16)
+			for k := range arena {
+				arena[k] = 0xEE
+			}
+			var got int
+			var back header.TCPOptions
+			in := map[string]int{"blocks": n, "room": room}
+			p := safely(func() {
+				got = header.EncodeSACKBlocks(blocks, arena[8:8+room:8+room])
+				back = header.ParseTCPOptions(arena[8 : 8+got])
+			})
+			if p != "" {
+				r.add(mismatch{Kind: "panic", Header: "tcp-sack", What: "EncodeSACKBlocks / ParseTCPOptions panicked: " + p, Input: in})
+				continue
+			}
+			if got != len(want) || !bytes.Equal(arena[8:8+got], want) {
+				r.add(mismatch{Kind: "encode", Header: "tcp-sack", What: "SACK option for the blocks that fit differs from RFC 2018", Input: in, Want: wantI, Got: ints(arena[8 : 8+got])})
+				continue
+			}
+			for k := 0; k < 8; k++ {
+				if arena[k] != 0xEE || arena[8+room+k] != 0xEE {
+					r.add(mismatch{Kind: "encode", Header: "tcp-sack", What: "EncodeSACKBlocks wrote outside its buffer", Input: in})
+					break
+				}
+			}
+			nb := (len(want) - 2) / 8
+			if len(want) == 0 {
+				nb = 0
+			}
+			if len(back.SACKBlocks) != nb {
+				r.add(mismatch{Kind: "decode", Header: "tcp-sack", What: "parser does not recover the encoded SACK blocks", Input: in, Want: nb, Got: len(back.SACKBlocks)})
+				continue
+			}
+			for i := 0; i < nb; i++ {
+				if back.SACKBlocks[i] != blocks[i] {
+					r.add(mismatch{Kind: "decode", Header: "tcp-sack", What: "parser returns a different SACK block", Input: in, Want: i})
+				}
+			}
+			per["tcp-sack-fit"]++
+		}
 	}
 	r.Extra["per_header"] = per
 	r.Extra["fields_with_getters"] = getters
